@@ -331,9 +331,14 @@ def is_basic_key(key):
 def norm_key(key):
     ks = key if isinstance(key, tuple) else (key,)
     out = []
+    def sc(v):
+        return v.elem() if isinstance(v, Tn) and v.rank == 0 else v
     for k in ks:
         if isinstance(k, Tn) and k.rank == 0:
             k = k.elem()
+        elif isinstance(k, slice) and any(isinstance(v, Tn) for v in (k.start, k.stop, k.step)):
+            # 0-d integer tensors as slice bounds (torch / numpy accept them through __index__)
+            k = slice(sc(k.start), sc(k.stop), sc(k.step))
         out.append(k)
     return tuple(out)
 
@@ -2204,7 +2209,34 @@ def _log2(fr, x):
     return LOG2(z3.ToReal(xz) if z3.is_int(xz) else xz)
 
 
-@lib('numpy.log2', 'math.log', 'math.pow', 'math.sqrt', 'math.floor', 'math.ceil')
+@lib('numpy.floor', 'numpy.ceil', 'math.floor', 'math.ceil')
+def _floor_ceil(fr, x, _which=None, **kw):
+    raise Unsupported("direct")
+
+
+def _make_floor_ceil(which):
+    def f(fr, x, **kw):
+        """floor / ceil of a scalar: the integer with floor(x) <= x < floor(x) + 1 (z3 to_int); numpy returns it as a
+        float, math as an int - both are the same real number here"""
+        if isinstance(x, Tn) and x.rank > 0:
+            raise Unsupported("%s of a tensor" % which)
+        v = unwrap_scalar(x)
+        if not O.is_sym(v):
+            import math
+            return (math.floor if which == 'floor' else math.ceil)(v)
+        vz = O.to_z3(v)
+        if z3.is_int(vz):
+            return vz
+        return z3.ToInt(vz) if which == 'floor' else -z3.ToInt(-vz)
+    return f
+
+
+for _w in ('floor', 'ceil'):
+    LIB['numpy.' + _w] = _make_floor_ceil(_w)
+    LIB['math.' + _w] = _make_floor_ceil(_w)
+
+
+@lib('numpy.log2', 'math.log', 'math.pow', 'math.sqrt')
 def _math_opaque(fr, *a, **kw):
     raise Unsupported("transcendental / rounding function without contract")
 
